@@ -381,7 +381,8 @@ func runHist(order, elemS, vtext, plainHex, tailHex string) string {
 // instead of taking the sandbox down (the unfixed decodeByteArray loops forever while
 // growing a slice on `dec S,a1 c100`).
 
-var opStart int64      // unix nano of the running op, 0 when idle
+var opStart int64      // unix nano of the running call, 0 when idle
+var peakHeap uint64    // largest HeapAlloc the watchdog has seen
 var curOp atomic.Value // the op line being executed (string)
 var curPath string     // where to leave it if the watchdog aborts (vlib reads <ops>.cur)
 
@@ -393,6 +394,13 @@ func leaveCur() {
 	}
 }
 
+// startWatchdog aborts the process (exit 3) in three distinguishable situations:
+//
+//	WATCHDOG call-time …   ONE call into the package has been running longer than maxOp
+//	WATCHDOG call-heap …   the heap crossed maxHeap while ONE call has been running for over 2 s
+//	                       (both: the property-level "never returns / allocates without bound")
+//	WATCHDOG process-heap  the process as a whole grew past maxHeap with no long-running call:
+//	                       that is the check machinery's own memory use, never a property finding
 func startWatchdog(maxOp time.Duration, maxHeap uint64) {
 	go func() {
 		var ms runtime.MemStats
@@ -400,18 +408,40 @@ func startWatchdog(maxOp time.Duration, maxHeap uint64) {
 			time.Sleep(100 * time.Millisecond)
 			st := atomic.LoadInt64(&opStart)
 			runtime.ReadMemStats(&ms)
+			if ms.HeapAlloc > atomic.LoadUint64(&peakHeap) {
+				atomic.StoreUint64(&peakHeap, ms.HeapAlloc)
+			}
+			op, _ := curOp.Load().(string)
+			if len(op) > 400 {
+				op = op[:400]
+			}
+			running := time.Duration(0)
+			if st != 0 {
+				running = time.Since(time.Unix(0, st))
+			}
 			if ms.HeapAlloc > maxHeap {
-				fmt.Printf("WATCHDOG heap=%d\n", ms.HeapAlloc)
+				if st != 0 && running > 2*time.Second {
+					fmt.Printf("WATCHDOG call-heap heap=%d running=%s op=%s\n", ms.HeapAlloc, running.Round(time.Millisecond), op)
+				} else {
+					fmt.Printf("WATCHDOG process-heap heap=%d (no single call running; the harness/searcher itself grew)\n", ms.HeapAlloc)
+				}
 				leaveCur()
 				os.Exit(3)
 			}
-			if st != 0 && time.Since(time.Unix(0, st)) > maxOp {
-				fmt.Printf("WATCHDOG op-time>%s heap=%d\n", maxOp, ms.HeapAlloc)
+			if st != 0 && running > maxOp {
+				fmt.Printf("WATCHDOG call-time running=%s heap=%d op=%s\n", running.Round(time.Millisecond), ms.HeapAlloc, op)
 				leaveCur()
 				os.Exit(3)
 			}
 		}
 	}()
+}
+
+// inCall brackets one call into the package for the watchdog (search mode).
+func inCall(op string) func() {
+	curOp.Store(op)
+	atomic.StoreInt64(&opStart, time.Now().UnixNano())
+	return func() { atomic.StoreInt64(&opStart, 0) }
 }
 
 type runner struct {
